@@ -79,6 +79,13 @@ CODE = {
     "{0; 1}": [('pn', num(0)), ('o', 6, b""), ('pn', num(1))],
     "{-0; 1}": [('pn', NEGZERO), ('o', 6, b""), ('pn', num(1))],
     "{x = 1}": [('pn', num(1)), ('o', 4, b"x")],
+    # variable names of which one is a prefix of the other
+    "{_i + 1}": [('o', 3, b"_i"), ('pn', num(1)), ('o', 1, b"+")],
+    "{_idx + 1}": [('o', 3, b"_idx"), ('pn', num(1)), ('o', 1, b"+")],
+    "{hits}": [('o', 3, b"hits")],
+    "{hitsTotal}": [('o', 3, b"hitsTotal")],
+    "{n = 1}": [('pn', num(1)), ('o', 4, b"n")],
+    "{num = 1}": [('pn', num(1)), ('o', 4, b"num")],
 }
 
 
